@@ -30,10 +30,13 @@ Supported grammar (anything else => exit 2 naming the construct and the line):
                               [if self._errors: <effect-free stmts>; raise ..]; return proc
     map_s(self, s)            statements:  if C: .. [else: ..] | try: .. except[ Exception|BaseException]: ..
                                            | Check_ParallelizeLoop(self.proc, s) | self.err(s, <const/f-string>)
-                                           | [return] super().map_s(s) | return [None] | pass | raise ..
+                                           | [return] super().map_s(s) | r = super().map_s(s) .. return r
+                                           | return [None] | pass | raise ..
                               conditions:  isinstance(s, LoopIR.K | (LoopIR.K, ..)),
-                                           isinstance(s.loop_mode, LoopIR.Par|LoopIR.Seq)  (only to the right of an
-                                           `isinstance(s, LoopIR.For) and` in the same conjunction), and / or / not
+                                           isinstance(s.loop_mode, LoopIR.Par|LoopIR.Seq)  (only where s is known to
+                                           be a LoopIR.For: to the right of `isinstance(s, LoopIR.For) and`, inside
+                                           `if isinstance(s, LoopIR.For):`, or after `if not isinstance(..): return`),
+                                           and / or / not
   LoopIR_Rewrite
     apply_proc                return self.map_proc(old) or old
     map_proc                  exactly one call self.map_stmts(p.body), as a top-level assignment; no other
